@@ -584,6 +584,74 @@ theorem update_precheck_error {m : Mgr} {v : View} {u : Upd} {f : Frame} {e : Er
 theorem table_ext {a b : Table} (h1 : a.rows = b.rows) (h2 : a.cols = b.cols) : a = b := by
   cases a; cases b; simp_all
 
+/-! ### promotion and cast back (what `reindex` + `astype` do to an int / bool column at a birth) -/
+
+theorem writePairs_map (f : Val → Val) (rows : List Nat) (cells : List Val) (ps : List (Nat × Val)) :
+    writePairs rows (cells.map f) (ps.map (fun p => (p.1, f p.2))) = (writePairs rows cells ps).map f := by
+  unfold writePairs
+  induction ps generalizing cells with
+  | nil => rfl
+  | cons x xs ih =>
+    simp only [List.map_cons, List.foldl_cons]
+    rw [← ih, List.map_set]
+
+theorem writeCells_map (f : Val → Val) (rows : List Nat) (cells : List Val) (urows : List Nat) (uvals : List Val) :
+    writeCells rows (cells.map f) urows (uvals.map f) = (writeCells rows cells urows uvals).map f := by
+  rw [writeCells_eq_pairs, writeCells_eq_pairs, ← writePairs_map]
+  congr 1
+  induction urows generalizing uvals with
+  | nil => rfl
+  | cons a as ih =>
+    cases uvals with
+    | nil => rfl
+    | cons b bs => simp [ih]
+
+theorem mapE_down_up {up : Val → Val} {down : Val → Except Err Val} {P : Val → Prop}
+    (hud : ∀ v, P v → down (up v) = .ok v) : ∀ (l : List Val), (∀ v ∈ l, P v) → mapE down (l.map up) = .ok l
+  | [], _ => rfl
+  | v :: l, h => by
+    simp only [List.map_cons, mapE, hud v (h v List.mem_cons_self),
+      mapE_down_up hud l (fun x hx => h x (List.mem_cons_of_mem _ hx))]
+
+theorem mem_of_cellOf {rows : List Nat} {cells : List Val} {r : Nat} {v : Val} (h : cellOf rows cells r = some v) :
+    v ∈ cells := by
+  unfold cellOf at h
+  split at h
+  · exact List.mem_of_getElem? h
+  · cases h
+
+/-- **Filling the new rows restores the column.** `base` are the cells after the table has grown
+(old values, null in the new rows), shown through the promotion `up`; writing values for all rows
+that are not `P`-typed yet and casting back with `down` succeeds and yields, by label, the supplied
+values in the addressed rows and the *original* values everywhere else. -/
+theorem fill_roundtrip {up : Val → Val} {down : Val → Except Err Val} {P : Val → Prop}
+    (hud : ∀ v, P v → down (up v) = .ok v)
+    {rows : List Nat} (hnd : rows.Nodup) {base : List Val} (hl : base.length = rows.length)
+    {urows : List Nat} {uvals : List Val} (hund : urows.Nodup) (hsub : ∀ r ∈ urows, r ∈ rows)
+    (hul : uvals.length = urows.length)
+    (hbase : ∀ r ∈ rows, r ∉ urows → ∃ v, cellOf rows base r = some v ∧ P v) (huv : ∀ v ∈ uvals, P v) :
+    ∃ out, mapE down (writeCells rows (base.map up) urows (uvals.map up)) = .ok out ∧
+      out.length = rows.length ∧
+      ∀ r, cellOf rows out r = if r ∈ urows then cellOf urows uvals r else cellOf rows base r := by
+  refine ⟨writeCells rows base urows uvals, ?_, by rw [length_writeCells]; exact hl,
+    cellOf_writeCells rows base urows uvals hund hsub hul hl⟩
+  rw [writeCells_map]
+  apply mapE_down_up hud
+  intro v hv
+  obtain ⟨i, hi, rfl⟩ := List.mem_iff_getElem.mp hv
+  have hi' : i < rows.length := by rw [length_writeCells, hl] at hi; exact hi
+  have hmem : rows[i] ∈ rows := List.getElem_mem hi'
+  have hc := cellOf_writeCells rows base urows uvals hund hsub hul hl rows[i]
+  rw [cellOf_of_mem hmem, idxOf_getElem_nodup hnd i hi', List.getElem?_eq_getElem hi] at hc
+  by_cases hu : rows[i] ∈ urows
+  · rw [if_pos hu] at hc
+    exact huv _ (mem_of_cellOf hc.symm)
+  · rw [if_neg hu] at hc
+    obtain ⟨v, hv1, hv2⟩ := hbase rows[i] hmem hu
+    rw [hv1] at hc
+    cases hc
+    exact hv2
+
 /-- two lists related element by element (core Lean has no `Forall₂`) -/
 inductive All₂ {α β : Type} (R : α → β → Prop) : List α → List β → Prop
   | nil : All₂ R [] []
